@@ -140,6 +140,11 @@ func (e *ExecutionConfig) UnmarshalJSON(input []byte) error {
 		e.MinValue = &minValue
 	}
 	e.Relays = data.Relays
+	for i, proposer := range data.Proposers {
+		if proposer == nil {
+			return fmt.Errorf("proposer %d has no configuration", i)
+		}
+	}
 	e.Proposers = data.Proposers
 
 	return nil
